@@ -3943,12 +3943,9 @@ namespace bloch::runtime {
     void RuntimeEvaluator::endScope() {
         if (m_env.empty())
             return;
-        for (auto& kv : m_env.back()) {
-            if (!kv.second.tracked)
-                continue;
-            const auto& name = kv.first;
-            const auto& entry = kv.second;
-            const auto& v = entry.value;
+        // The outcome of a @tracked local is taken when the variable itself ends, i.e. after the
+        // variables declared later in the scope have died (their destructors may still measure it).
+        auto recordTracked = [this](const std::string& name, const Value& v) {
             if (v.type == Value::Type::Qubit) {
                 int q = v.qubit;
                 std::string outcome = "?";
@@ -3978,7 +3975,7 @@ namespace bloch::runtime {
                 std::string key = std::string("qubit[] ") + name;
                 m_trackedCounts[key][outcome]++;
             }
-        }
+        };
         // Take the scope off the stack before its values die: an object whose last reference
         // lived here runs its destructor now, and that pushes (and pops) scopes of its own.
         // Destroying the map while it is still the stack's last element would let those pushes
@@ -3986,12 +3983,16 @@ namespace bloch::runtime {
         auto dying = std::move(m_env.back());
         m_env.pop_back();
         // Release the variables in reverse order of declaration, not in hash order.
-        std::vector<VarEntry*> order;
+        std::vector<std::pair<const std::string*, VarEntry*>> order;
         order.reserve(dying.size());
-        for (auto& kv : dying) order.push_back(&kv.second);
+        for (auto& kv : dying) order.emplace_back(&kv.first, &kv.second);
         std::sort(order.begin(), order.end(),
-                  [](const VarEntry* a, const VarEntry* b) { return a->seq > b->seq; });
-        for (VarEntry* entry : order) entry->value = Value{};
+                  [](const auto& a, const auto& b) { return a.second->seq > b.second->seq; });
+        for (auto& [name, entry] : order) {
+            if (entry->tracked)
+                recordTracked(*name, entry->value);
+            entry->value = Value{};
+        }
     }
 
     void RuntimeEvaluator::flushEchoes() {
